@@ -200,11 +200,9 @@ def classify(node, cfg, version, direction, ref):
         kind = {'c': 'choice-branches', 's': 'sequence-skip', 'a': 'all-group'}[anc[0]]
         return f'upa-missed:{kind}-{"nested" if nested else "direct"}'
     # false alarm: deterministic model refused
-    rep_nested = any((g[3] is None or g[3] >= 2) and
-                     any(M.is_group(c) and R.nullable(R.Model(c).expr) for c in particles_below(g))
-                     for g in groups_of(node))
-    if rep_nested and M.size(node) <= 7:
-        return 'upa-false-alarm:repeated-group-with-nested-emptiable-group'
+    nested_emptiable = any(g is not node and R.nullable(R.Model(g).expr) for g in groups_of(node))
+    if nested_emptiable and M.size(node) <= 7:
+        return 'upa-false-alarm:nested-emptiable-group'
     return f'upa-false-alarm:unclassified: {M.text(node)}{K.cfg_text(cfg)}'
 
 
